@@ -78,6 +78,16 @@ main(int argc, char *argv[])
 		printf("ACCEPTED-ALL threads=%d iters=%d\n", n, iters);
 		return 0;
 	}
+	/* vercheck -E <version>: the thread's errno holds a stale ERANGE (left by an
+	 * unrelated conversion) when the version is checked */
+	if (argc == 3 && strcmp(argv[1], "-E") == 0) {
+		volatile double d = strtod("1e-320", NULL);
+		volatile long l = strtol("99999999999999999999999", NULL, 10);
+		(void) d; (void) l;
+		ovni_version_check_str(argv[2]);
+		printf("ACCEPTED with-stale-errno\n");
+		return 0;
+	}
 	if (argc != 2)
 		return 98;
 	ovni_version_check_str(argv[1]);
